@@ -297,6 +297,8 @@ def regenerate_consts(needed=None):
     for f in sorted(exdir.glob("*.py")):
         if f.stem.startswith("_"):
             continue
+        if needed is not None and f.stem not in needed:
+            continue      # other properties' constants are left as they are
         try:
             mod = importlib.import_module(f"harness.extractors.{f.stem}")
             texts[mod.TARGET] = mod.render(REPO)
